@@ -103,6 +103,7 @@ for sid, (file, what, needs) in sorted(T.items()):
         'detected_by_checks': hits,
         'first_report': first,
         'how_checked': 'tools/seedmatrix.py applies patch.diff to a scratch copy of the sources (never /repo), runs ./check <Cnn> with SLU_REPO pointing at the copy, removes the copy',
+        'checks_run': sorted(p for p, v in mx.get(sid, {}).items() if isinstance(v, list)),
     }
     json.dump(meta, open(os.path.join(d, 'meta.json'), 'w'), indent=1)
 print('wrote', len(T))
